@@ -117,7 +117,7 @@ Digest(r) == DigestIn(regs, tabs, memo, r)
 
 (* ---- edits through one registry object ---- *)
 Add(r, s, sc, px) ==
-  /\ regs[r].live /\ (r = 0 => s = "foo")     \* built-in symbols of the default registry are never re-added here
+  /\ regs[r].live /\ (regs[r].d = 0 => s = "foo")     \* built-in symbols of the default TABLE are never re-added here
   /\ Log([op |-> "add", r |-> r, sym |-> s, scale |-> sc, pfx |-> px])
   /\ tabs' = [tabs EXCEPT ![regs[r].d][s] = [scale |-> sc, pfx |-> px]]
   /\ memo' = [memo EXCEPT ![regs[r].c] = NoCache]
@@ -154,15 +154,19 @@ Construct(r, p) ==
      /\ memo' = [memo EXCEPT ![regs[r].c] = x.mem]
      /\ last' = x.u
   /\ UNCHANGED <<regs, tflag>>
-\* define_unit("foo", (sc, "m"), prefixable=px) : no registry argument = the default registry + an attribute of `unyt`
-DefineDefault(sc, px) ==
-  /\ Log([op |-> "define", r |-> 0, sym |-> "foo", scale |-> sc, pfx |-> px])
-  /\ IF ImplAtomOk(TabOf(0), "foo")
-     THEN /\ last' = Raise /\ tabs' = [tabs EXCEPT ![0] = WriteBack(TabOf(0), "foo")] /\ UNCHANGED memo
+\* define_unit("foo", (sc, "m"), prefixable=px[, registry=h]) on the default TABLE: without registry argument (r = 0:
+\* the default registry + an attribute of `unyt`) or through another registry object h on the same table
+DefineUnit(r, sc, px) ==
+  /\ regs[r].live /\ regs[r].d = 0
+  /\ Log([op |-> "define", r |-> r, sym |-> "foo", scale |-> sc, pfx |-> px])
+  /\ IF ImplAtomOk(tabs[0], "foo")
+     THEN /\ last' = Raise /\ tabs' = [tabs EXCEPT ![0] = WriteBack(tabs[0], "foo")] /\ UNCHANGED memo
      ELSE /\ tabs' = [tabs EXCEPT ![0]["foo"] = [scale |-> sc, pfx |-> px]]
-          /\ memo' = [memo EXCEPT ![0] = [NoCache EXCEPT !["foo"] = [k |-> "unit", s |-> R(sc)]]]
+          \* add() drops the (shared) memo; only the call without registry argument then builds Unit("foo")
+          /\ memo' = [memo EXCEPT ![regs[r].c] = IF r = 0 THEN [NoCache EXCEPT !["foo"] = [k |-> "unit", s |-> R(sc)]] ELSE NoCache]
           /\ last' = Ok
   /\ UNCHANGED <<regs, tflag>>
+DefineDefault(sc, px) == DefineUnit(0, sc, px)
 
 (* ---- constructors: which alias, which copy ---- *)
 NewRec(n, d, c, kind, grp) == [k |-> "new", r |-> n, d |-> d, c |-> c, kind |-> kind, grp |-> grp]
@@ -183,7 +187,7 @@ NewPlain(defs, usys) ==
 IsEmptyDict(d) == ~tflag[d].def /\ \A k \in Keys : tabs[d][k].scale = 0
 \* UnitRegistry(lut=src.lut, add_default_symbols=defs) : the caller hands over src's own dict
 NewLutAlias(src, defs) ==
-  /\ HasFresh /\ src # 0 /\ regs[src].live
+  /\ HasFresh /\ regs[src].live /\ regs[src].d # 0    \* the default TABLE is never handed to lut= (not generated)
   /\ LET n == Fresh sd == regs[src].d IN
      /\ Log([op |-> "lutalias", r |-> src, new |-> n, defs |-> defs])
      /\ memo' = [memo EXCEPT ![n] = NoCache]
@@ -252,10 +256,25 @@ UnitCopy(src, p, deep) ==
              /\ last' = [k |-> "same", r |-> src] /\ UNCHANGED <<regs, tflag>>
         ELSE LET n == Fresh IN
              /\ tabs' = [tabs EXCEPT ![sd] = x.tab, ![n] = x.tab]
-             \* the copy is built from the original's numbers (no look-up) and memoised under its string
-             /\ memo' = [memo EXCEPT ![sc] = x.mem, ![n] = [NoCache EXCEPT ![p] = x.u]]
+             \* the copy is built from the original's numbers (no look-up); since fix 852a543 such a unit is NOT memoised
+             /\ memo' = [memo EXCEPT ![sc] = x.mem, ![n] = NoCache]
              /\ tflag' = [tflag EXCEPT ![n] = [def |-> tflag[sd].def, ident |-> FALSE]]
              /\ Create(n, n, n, regs[src].kind, n)
+
+\* A second registry OBJECT on the same table and the same memo (same class):
+\*   how = "copyreg"  : copy.copy(src)
+\*   how = "unitcopy" : (Unit("m", registry=src)**5).copy().registry  - Unit.copy() of a unit whose
+\*                      text is not in the string memo is bound to copy.copy(registry)
+\* Whatever is done through the handle is done to src's table; for src = 0 it is a handle on the DEFAULT table.
+HandleHows == {"copyreg", "unitcopy"}
+ShallowHandle(src, how) ==
+  /\ HasFresh /\ regs[src].live
+  /\ LET n == Fresh sd == regs[src].d sc == regs[src].c
+         x == IF how = "copyreg" THEN [ok |-> TRUE, tab |-> tabs[sd], mem |-> memo[sc]] ELSE ConstructR(tabs[sd], memo[sc], "m") IN
+     /\ Log([op |-> "handle", r |-> src, new |-> n, how |-> how])
+     /\ tabs' = [tabs EXCEPT ![sd] = x.tab] /\ memo' = [memo EXCEPT ![sc] = x.mem]
+     /\ UNCHANGED tflag
+     /\ IF x.ok THEN Create(n, sd, sc, regs[src].kind, regs[src].grp) ELSE (last' = Raise /\ UNCHANGED regs)
 
 (* ---- unit systems and namespaces created from a registry ---- *)
 \* the regime in which the namespace helpers are transcribed: all built-in symbols present, m as shipped
@@ -361,15 +380,16 @@ BinOp(op, r1, p1, r2, p2, warm) ==
 
 (* ====================== C13 on the abstract state ====================== *)
 \* registries that were NOT created independently of each other share a group: lut= aliases (the caller
-\* handed over the same dict on purpose).  Everything else is independent.
+\* handed over the same dict on purpose) and shallow handles (copy.copy of a registry).  Everything else is independent.
 SameGroup(a, b) == regs[a].grp = regs[b].grp
 \* C13_NoSharing: independently created registries never share a table or a memo
 C13_NoSharing == \A a, b \in Live : ~SameGroup(a, b) => (regs[a].d # regs[b].d /\ regs[a].c # regs[b].c)
 \* which groups a call may change: an edit (add/modify/remove/define) its own registry's group, the defaults
 \* written by lut= the group that was handed over; every other call (construction of units, unit systems,
 \* namespaces, persistence, copies, mixed arithmetic) none - C13 does not speak about a call's own registry,
-\* except for mixed arithmetic ("never write to either") and modify/remove on the default registry ("refuse")
-MayChange(e) == IF e.op \in {"binop", "rebind", "convert", "new"} \/ (e.r = 0 /\ e.op \in {"modify", "remove"}) THEN {}
+\* except for mixed arithmetic ("never write to either") and modify/remove through ANY registry object on the
+\* default table ("modify and remove on the default registry always refuse")
+MayChange(e) == IF e.op \in {"binop", "rebind", "convert", "new"} \/ (regs[e.r].d = 0 /\ e.op \in {"modify", "remove"}) THEN {}
                 ELSE {regs[e.r].grp}
 \* C13_Frame (action): the digest of every registry outside MayChange is the same before and after
 FrameBroken(e) == {r \in Live : regs[r].grp \notin MayChange(e) /\ DigestIn(regs', tabs', memo', r) # Digest(r)}
